@@ -91,16 +91,26 @@ Proof. intros Hm Hf s. apply rep_at_bind; [apply Hm|intros a _; apply Hf]. Qed.
 Lemma replays_emit_g e : replays (emit_g e).  Proof. intros s _ _ c; constructor; cbn; auto. Qed.
 Lemma replays_emit_u e : replays (emit_u e).  Proof. intros s _ _ c; constructor; cbn; auto. Qed.
 Lemma replays_get_ts : replays get_ts.        Proof. intros s _ _ c; constructor; cbn; auto. Qed.
-Lemma replays_mark_nf : replays mark_nf.      Proof. intros s _ _ c; constructor; cbn; auto. Qed.
-Lemma replays_mark_reg : replays mark_reg.    Proof. intros s _ _ c; constructor; cbn; auto. Qed.
 Lemma replays_mark_dirty : replays mark_dirty.
 Proof. intros s _ Hd c. cbn in Hd. discriminate. Qed.
-Lemma replays_set_failed m : replays (set_failed m).
+Lemma replays_signal k m id : replays (signal k m id).
+Proof. intros s _ _ c; unfold signal; destruct k; constructor; cbn; auto. Qed.
+Lemma replays_register id f : replays (register id f).
 Proof. intros s _ _ c; constructor; cbn; auto. Qed.
-Lemma replays_upd_reg f : replays (upd_reg f).
+Lemma replays_context_call : replays context_call.
+Proof.
+  intros s _ _ c. unfold context_call. cbn [with_src ts].
+  destruct (ctx (ts s)); [|destruct (cleaning (ts s))]; constructor; cbn; auto.
+Qed.
+Lemma replays_begin_cleanup : replays begin_cleanup.
 Proof. intros s _ _ c; constructor; cbn; auto. Qed.
-Lemma replays_upd_cleanup f : replays (upd_cleanup f).
+Lemma replays_end_cleanup : replays end_cleanup.
 Proof. intros s _ _ c; constructor; cbn; auto. Qed.
+Lemma replays_pop_cleanup : replays pop_cleanup.
+Proof.
+  intros s _ _ c. unfold pop_cleanup. cbn [with_src ts].
+  destruct (cleanups (ts s)) as [|[i f] r]; constructor; cbn; auto.
+Qed.
 Lemma replays_failOnError l : replays (failOnError l).
 Proof.
   intros s _ _ c. unfold failOnError. cbn [with_src ts].
@@ -605,10 +615,8 @@ Section InterpReplay.
   Proof.
     induction fuel as [|f IH]; intros fuel' last Hf s; [intros Hg; cbn in Hg; contradiction|].
     destruct fuel' as [|f']; [lia|]. cbn [cleanup_loop].
-    apply rep_at_bind; [apply replays_get_ts|intros t _].
-    destruct (cleanups t) as [|[id c] rest]; [apply replays_ret|].
-    apply rep_at_bind; [apply replays_upd_cleanup|intros _ _].
-    apply rep_at_bind; [apply replays_emit_u|intros _ _].
+    apply rep_at_bind; [apply replays_pop_cleanup|intros oc _].
+    destruct oc as [c|]; [|apply replays_ret].
     set (h := fun k (r : result val) =>
       match r with
       | Err XFuel => throw XFuel
@@ -616,8 +624,8 @@ Section InterpReplay.
                  cleanup_loop crun k (Some e)
       | Ok _ => cleanup_loop crun k last
       end).
-    change (rep_at (try_ (crun c) (h f)) (try_ (crun c) (h f')) (post (emit_u (URun id) (post (upd_cleanup (fun t0 => mkT (failed t0) rest (ctx t0) true) (post (get_ts s))))))).
-    set (s2 := post (emit_u (URun id) (post (upd_cleanup (fun t0 => mkT (failed t0) rest (ctx t0) true) (post (get_ts s)))))).
+    change (rep_at (try_ (crun c) (h f)) (try_ (crun c) (h f')) (post (pop_cleanup s))).
+    set (s2 := post (pop_cleanup s)).
     intros Hg Hd cc. unfold try_ in *. cbn [res post w] in *.
     apply dirty_wapp in Hd. destruct Hd as [Hd1 Hd2].
     destruct (good_dec _ (res (crun c s2))) as [G|NG].
@@ -643,18 +651,15 @@ Section InterpReplay.
 
   Lemma replays_cleanup : replays (cleanup LF crun).
   Proof.
-    unfold cleanup. apply replays_bind; [apply replays_get_ts|intros t].
-    apply replays_bind; [destruct (ctx t); [apply replays_emit_u|apply replays_ret]|intros _].
-    apply replays_bind; [apply replays_upd_cleanup|intros _].
+    unfold cleanup. apply replays_bind; [apply replays_begin_cleanup|intros _].
     apply replays_bind; [apply replays_cleanup_loop; lia|intros r].
-    apply replays_bind; [apply replays_upd_cleanup|intros _]. apply replays_ret.
+    apply replays_bind; [apply replays_end_cleanup|intros _]. apply replays_ret.
   Qed.
 
   Lemma cleanup_loop_err : forall fuel last s e, res (cleanup_loop crun fuel last s) = Err e -> e = XFuel.
   Proof.
     induction fuel as [|f IH]; intros last s e; cbn [cleanup_loop]; [cbn; congruence|].
-    unfold bind at 1. cbn [get_ts res post]. destruct (cleanups (ts s)) as [|[id c] rest]; [cbn; discriminate|].
-    unfold bind at 1. cbn [upd_cleanup res post]. unfold bind at 1. cbn [emit_u res post].
+    unfold bind at 1. unfold pop_cleanup at 1 2 3. destruct (cleanups (ts s)) as [|[id c] rest]; cbn [res post]; [cbn; discriminate|].
     unfold try_. cbn [res]. destruct (res (crun c _)) as [v|e0]; [apply IH|].
     destruct e0; try (unfold bind at 1; cbn [ret res post]; apply IH).
     - unfold bind at 1. destruct (internal_msg m); cbn [mark_dirty ret res post]; apply IH.
@@ -662,11 +667,11 @@ Section InterpReplay.
   Qed.
   Lemma cleanup_err s e : res (cleanup LF crun s) = Err e -> e = XFuel.
   Proof.
-    unfold cleanup. unfold bind at 1. cbn [get_ts res post].
-    unfold bind at 1. destruct (ctx (ts s)); cbn [emit_u ret res post];
-      (unfold bind at 1; cbn [upd_cleanup res post]; unfold bind at 1;
-       match goal with |- context [res (cleanup_loop crun LF None ?s0)] => destruct (res (cleanup_loop crun LF None s0)) eqn:E end;
-       [unfold bind at 1; cbn; discriminate|cbn [res]; intros H; injection H as <-; eapply cleanup_loop_err; eauto]).
+    unfold cleanup. unfold bind at 1. cbn [begin_cleanup res post].
+    unfold bind at 1.
+    match goal with |- context [res (cleanup_loop crun LF None ?s0)] => destruct (res (cleanup_loop crun LF None s0)) eqn:E end.
+    - unfold bind at 1. cbn. discriminate.
+    - cbn [res]. intros H. injection H as <-. eapply cleanup_loop_err; eauto.
   Qed.
 
   (* ---- Custom ---- *)
@@ -952,16 +957,11 @@ Section InterpReplay.
     - (* PDraw *) apply replays_bind; [apply Hgv; assumption|intros v].
       apply replays_bind; [|intros _; apply H0].
       intros s _ _ c. constructor; cbn; auto.
-    - (* PFail *) apply replays_bind; [apply replays_emit_u|intros _].
-      destruct kind; [apply replays_bind; [apply replays_set_failed|intros _; assumption]
-                     |apply replays_bind; [apply replays_set_failed|intros _; apply replays_throw]
-                     |apply replays_throw].
+    - (* PFail *) apply replays_bind; [apply replays_signal|intros _].
+      destruct kind; [assumption|apply replays_throw|apply replays_throw].
     - (* PSkip *) apply replays_bind; [apply replays_emit_u|intros _; apply replays_throw].
-    - (* PCleanup *) apply replays_bind; [apply replays_upd_reg|intros _].
-      apply replays_bind; [apply replays_emit_u|intros _; assumption].
-    - (* PContext *) apply replays_bind; [apply replays_get_ts|intros t].
-      destruct (ctx t); [|destruct (cleaning t)];
-        repeat (apply replays_bind; [first [apply replays_emit_u|apply replays_upd_reg]|intros _]); apply H.
+    - (* PCleanup *) apply replays_bind; [apply replays_register|intros _; assumption].
+    - (* PContext *) apply replays_bind; [apply replays_context_call|intros b]. apply H.
     - (* PFailed *) apply replays_bind; [apply replays_get_ts|intros t].
       apply replays_bind; [apply replays_emit_u|intros _; apply H].
     - (* PLog *) apply replays_bind; [apply replays_emit_u|intros _; assumption].
